@@ -338,13 +338,13 @@ Let LE := filter (fun i => Qle_bool (dist_at dists i) dk) (seq 0 n).
 
 Lemma B_In i : In i B <-> i < n /\ (dist_at dists i < dk)%Q.
 Proof.
-  unfold B, idx_below. rewrite filter_In, in_seq. fold (dist_at dists i). fold dk. rewrite Qltb_lt.
+  unfold B, idx_below, idx_below_at. rewrite filter_In, in_seq. fold (dist_at dists i). fold dk. rewrite Qltb_lt.
   fold n. intuition lia.
 Qed.
 
 Lemma T_In i : In i T <-> i < n /\ (dist_at dists i == dk)%Q.
 Proof.
-  unfold T, idx_tie. rewrite filter_In, in_seq. fold (dist_at dists i). fold dk. rewrite Qeq_bool_iff.
+  unfold T, idx_tie, idx_tie_at. rewrite filter_In, in_seq. fold (dist_at dists i). fold dk. rewrite Qeq_bool_iff.
   fold n. intuition lia.
 Qed.
 
@@ -357,7 +357,7 @@ Lemma LE_NoDup : NoDup LE. Proof. apply NoDup_filter, seq_NoDup. Qed.
 
 Lemma B_small : length B <= k - 1.
 Proof.
-  unfold B, idx_below.
+  unfold B, idx_below, idx_below_at.
   pose proof (filter_idx_length (fun x => Qltb x (kth k dists)) dists) as E. unfold dist_at in E. rewrite E. clear E.
   rewrite (filter_length_perm _ (Permutation_sym (qsort_perm dists))).
   unfold kth. apply count_lt_sorted; [apply qsort_sorted|]. rewrite qsort_length. lia.
@@ -466,6 +466,114 @@ End LcRange.
 Lemma lc_range_point (bl need tl lenT : nat) :
   tl <= lenT -> lenT = need -> bl + (need - (lenT - tl)) = bl + Nat.min need tl.
 Proof. lia. Qed.
+
+(** * completeness of the interval: every count in it is produced by some valid selection *)
+Lemma filter_filter_true A (f : A -> bool) l : filter f (filter f l) = filter f l.
+Proof.
+  induction l as [|x t IH]; simpl; auto. destruct (f x) eqn:E; simpl; [rewrite E, IH|]; auto.
+Qed.
+
+Lemma filter_firstn_all A (f : A -> bool) l m : (forall x, In x l -> f x = true) -> filter f (firstn m l) = firstn m l.
+Proof.
+  revert m; induction l as [|x t IH]; intros [|m] H; simpl; auto.
+  rewrite (H x) by (simpl; auto). f_equal. apply IH. intros; apply H; simpl; auto.
+Qed.
+
+Lemma In_firstn A (l : list A) m x : In x (firstn m l) -> In x l.
+Proof. intros H. rewrite <- (firstn_skipn m l). apply in_or_app; auto. Qed.
+
+Lemma filter_firstn_none A (f : A -> bool) l m : (forall x, In x l -> f x = false) -> filter f (firstn m l) = [].
+Proof.
+  intros H. apply filter_all_false. intros x Hx. apply H. eapply In_firstn; eauto.
+Qed.
+
+Lemma NoDup_firstn A (l : list A) m : NoDup l -> NoDup (firstn m l).
+Proof.
+  intros H. rewrite <- (firstn_skipn m l) in H. apply NoDup_app_l in H. exact H.
+Qed.
+
+Section LcComplete.
+Variable lowerf : nat -> bool.
+Variable k : nat.
+Variable dists : list Q.
+Hypothesis Hk : 1 <= k <= length dists.
+
+Let n := length dists.
+Let dk := kth k dists.
+Let B := idx_below k dists.
+Let T := idx_tie k dists.
+Let TL := filter lowerf T.
+Let TN := filter (fun i => negb (lowerf i)) T.
+Let need := k - length B.
+
+Lemma LE_split : length (filter (fun i => Qle_bool (dist_at dists i) dk) (seq 0 n)) = length B + length T.
+Proof.
+  unfold B, T, idx_below, idx_tie, idx_below_at, idx_tie_at. fold n. fold dk.
+  induction (seq 0 n) as [|i t IH]; simpl; auto.
+  fold (dist_at dists i).
+  destruct (Qle_bool (dist_at dists i) dk) eqn:E1.
+  - apply Qle_bool_iff in E1. destruct (Qltb (dist_at dists i) dk) eqn:E2.
+    + apply Qltb_lt in E2. assert (E3 : Qeq_bool (dist_at dists i) dk = false).
+      { destruct (Qeq_bool (dist_at dists i) dk) eqn:E; auto. apply Qeq_bool_iff in E. lra. }
+      rewrite E3. simpl. rewrite IH. lia.
+    + apply Qltb_ge in E2. assert (E3 : Qeq_bool (dist_at dists i) dk = true) by (apply Qeq_bool_iff; lra).
+      rewrite E3. simpl. rewrite IH. lia.
+  - assert (Hgt : (dk < dist_at dists i)%Q).
+    { destruct (Qlt_le_dec dk (dist_at dists i)); auto. apply Qle_bool_iff in q. congruence. }
+    assert (E2 : Qltb (dist_at dists i) dk = false) by (apply Qltb_ge; lra).
+    assert (E3 : Qeq_bool (dist_at dists i) dk = false).
+    { destruct (Qeq_bool (dist_at dists i) dk) eqn:E; auto. apply Qeq_bool_iff in E. lra. }
+    rewrite E2, E3. exact IH.
+Qed.
+
+Lemma need_le_T : need <= length T /\ length B + need = k.
+Proof.
+  pose proof (@LE_big k dists Hk) as H1. pose proof (@B_small k dists Hk) as H2. pose proof LE_split as H3.
+  fold n dk in H1. rewrite H3 in H1. fold B in H2. unfold need. lia.
+Qed.
+
+Theorem lc_range_complete t :
+  need - (length T - countb lowerf T) <= t <= Nat.min need (countb lowerf T) ->
+  exists sel, is_knn k dists sel /\ countb lowerf sel = countb lowerf B + t.
+Proof.
+  intros Ht. unfold countb in *. fold TL in Ht |- *.
+  pose proof (filter_compl_length lowerf T) as HT. fold TL TN in HT.
+  destruct need_le_T as [Hn1 Hn2].
+  set (sel := B ++ firstn t TL ++ firstn (need - t) TN).
+  assert (HinB : forall i, In i B <-> i < n /\ (dist_at dists i < dk)%Q) by (exact (@B_In lowerf k dists Hk)).
+  assert (HinT : forall i, In i T <-> i < n /\ (dist_at dists i == dk)%Q) by (exact (@T_In lowerf k dists Hk)).
+  assert (HTL : forall i, In i TL -> In i T /\ lowerf i = true) by (intros i Hi; apply filter_In in Hi; auto).
+  assert (HTN : forall i, In i TN -> In i T /\ lowerf i = false).
+  { intros i Hi. apply filter_In in Hi. destruct Hi as [H1 H2]. apply negb_true_iff in H2. auto. }
+  assert (Hsel_in : forall i, In i sel -> i < n /\ (dist_at dists i <= dk)%Q).
+  { intros i Hi. unfold sel in Hi. apply in_app_or in Hi. destruct Hi as [Hi|Hi].
+    - apply HinB in Hi. destruct Hi; split; auto; lra.
+    - apply in_app_or in Hi. destruct Hi as [Hi|Hi]; apply In_firstn in Hi;
+        [apply HTL in Hi|apply HTN in Hi]; destruct Hi as [Hi _]; apply HinT in Hi; destruct Hi; split; auto; lra. }
+  exists sel. split.
+  - split; [|split; [|split]].
+    + unfold sel. apply NoDup_app_intro.
+      * apply NoDup_filter, seq_NoDup.
+      * apply NoDup_app_intro.
+        -- apply NoDup_firstn, NoDup_filter, NoDup_filter, seq_NoDup.
+        -- apply NoDup_firstn, NoDup_filter, NoDup_filter, seq_NoDup.
+        -- intros i H1 H2. apply In_firstn in H1. apply In_firstn in H2.
+           apply HTL in H1. apply HTN in H2. destruct H1, H2. congruence.
+      * intros i H1 H2. apply HinB in H1. apply in_app_or in H2.
+        destruct H2 as [H2|H2]; apply In_firstn in H2; [apply HTL in H2|apply HTN in H2];
+          destruct H2 as [H2 _]; apply HinT in H2; destruct H1, H2; lra.
+    + unfold sel. rewrite !app_length, !firstn_length. fold n. lia.
+    + intros i Hi. apply Hsel_in in Hi. fold n. tauto.
+    + intros i j Hi Hj Hnot. apply Hsel_in in Hi. destruct Hi as [_ Hi].
+      destruct (Qlt_le_dec (dist_at dists j) dk) as [Hlt|Hge]; [|lra].
+      exfalso. apply Hnot. unfold sel. apply in_or_app. left. apply HinB. fold n in Hj. auto.
+  - unfold sel. rewrite !filter_app, !app_length.
+    rewrite (filter_firstn_all lowerf TL t) by (intros x Hx; apply HTL in Hx; tauto).
+    rewrite (filter_firstn_none lowerf TN (need - t)) by (intros x Hx; apply HTN in Hx; tauto).
+    rewrite firstn_length. simpl. lia.
+Qed.
+
+End LcComplete.
 
 (** * a decision procedure for [is_knn] (used by the examples) *)
 Fixpoint nodupb (l : list nat) : bool :=
